@@ -4,6 +4,7 @@ import (
 	"crypto/aes"
 	"crypto/cipher"
 	"crypto/rand"
+	"errors"
 	"io"
 
 	"github.com/goatcms/goatcore/filesystem"
@@ -68,6 +69,9 @@ func (Cipher) Decrypt(key []byte, data []byte) (decrypted []byte, err error) {
 		return nil, err
 	}
 	nonceSize := gcm.NonceSize()
+	if len(data) < nonceSize {
+		return nil, errors.New("aesgcm256cfs: encrypted data is too short")
+	}
 	nonce, data = data[:nonceSize], data[nonceSize:]
 	return gcm.Open(nil, nonce, data, nil)
 }
